@@ -29,7 +29,9 @@ static char engine[SZ_Dispatch_Engine] __attribute__((aligned(16)));
 uint32_t F_pthread_rwlock_rdlock(char* l) { return 0; }
 uint32_t F_pthread_rwlock_unlock(char* l) { return 0; }
 int tail_taken;
-char* MAPFIND(char* map, char* key) { tail_taken++; return map + 8; /* == end(): the header node */ }
+/* the global table: whether a global of this name exists is the solver's choice (globals can be created at any time, also under a name that is a function) */
+static int global_exists; static struct { char hdr[32]; struct sso_string key; struct BV val; } global_node; static char global_val[8];
+char* MAPFIND(char* map, char* key) { tail_taken++; if (global_exists) { global_node.val.p = global_val; global_node.val.pn = 0; return (char*)&global_node; } return map + 8; /* == end(): the header node */ }
 void GETFUNOBJ(char* sret, char* self, uint64_t len, char* ptr, uint64_t hint) { *(uint64_t*)sret = hint; ((struct BV*)(sret + 8))->p = marker; ((struct BV*)(sret + 8))->pn = 0; }
 #ifdef COUNT
 /* contract of QuickFlatMap::count(name): 1 iff some entry's key equals name (asserted on the real count/find by harness L2) */
@@ -63,9 +65,12 @@ int main(void) {
   loc = 0;
 #elif HK == 1
   loc = 0x80000000ull | HLOW;                     /* "global/function" hint; low bits: cached function-table position */
+#elif HK == 3
+  loc = HLOW;                                     /* a bare function-table position (what the function tail writes back): no flag bits at all */
 #else
   loc = 0xC0000000ull | ((uint64_t)HD << 16) | (uint64_t)HI;
 #endif
+  global_exists = nondet_u8() & 1;
   uint64_t loc_cell = loc; struct BV out = { 0, 0 };
   /* reference: innermost scope first */
   char* expect = 0; int exp_depth = -1, exp_idx = -1;
@@ -78,8 +83,8 @@ int main(void) {
     __CPROVER_assert(tail_taken == 0, "C04: a live local is found without consulting globals/functions");
     __CPROVER_assert(0, "witness: local binding exists");
   } else {
-    __CPROVER_assert(out.p == marker && tail_taken == 1, "C04: a name with no live local binding goes to globals, then functions");
-    __CPROVER_assert(0, "witness: no local binding");
+    __CPROVER_assert(tail_taken == 1 && out.p == (global_exists ? global_val : marker), "C04: a name with no live local binding goes to globals, then functions - a global of that name wins over a function whatever the cached hint says");
+    if (global_exists) __CPROVER_assert(0, "witness: global found"); else __CPROVER_assert(0, "witness: no local binding");
   }
   if (expect && loc == 0) __CPROVER_assert(loc_cell == (0xC0000000ull | ((uint64_t)exp_depth << 16) | (uint64_t)exp_idx), "C04: the hint written back denotes the slot that was found");
   return 0;
